@@ -290,7 +290,7 @@ func init() {
 		f, _ := os.Create(p)
 		pprof.StartCPUProfile(f)
 		go func() {
-			time.Sleep(60 * time.Second)
+			time.Sleep(150 * time.Second)
 			pprof.StopCPUProfile()
 			f.Close()
 		}()
